@@ -86,8 +86,10 @@ func verifPageObject(rng *rand.Rand, pages []verifPage, p int, ordered bool, lin
 	switch {
 	case pg.N == 1 && rng.Intn(3) == 0:
 		obj[key] = verifItems(p, 1)[0] /* a single value instead of a list */
-	case pg.N > 0 || rng.Intn(2) == 0:
+	case pg.N > 0 || rng.Intn(3) == 0:
 		obj[key] = verifItems(p, pg.N)
+	case rng.Intn(2) == 0:
+		obj[key] = nil /* "orderedItems": null - what a nil slice becomes in some servers: no items */
 	}
 	/* totalItems is advisory: servers hide it, report 0, or let it go stale */
 	switch rng.Intn(5) {
@@ -244,6 +246,102 @@ func verifRunPaging(out *verifkit.Trace, rng *rand.Rand, sim *verifsim.Sim, sid 
 	out.Emit(ev)
 }
 
+/*
+	Two collections whose pages live under ONE path and differ in the query only, drained at the same time
+	by two goroutines: each must come out as its own sequence.
+*/
+func verifRunPagingPair(out *verifkit.Trace, rng *rand.Rand, sim *verifsim.Sim, sid int) {
+	jtp.VerifSetCache(64)
+	sim.Reset()
+	h := sim.Host("p1")
+	layouts := [2][]verifPage{}
+	for side := 0; side < 2; side++ {
+		k := 2 + rng.Intn(4)
+		for p := 0; p < k; p++ {
+			next := p + 2
+			if p == k-1 {
+				next = 0
+			}
+			layouts[side] = append(layouts[side], verifPage{N: rng.Intn(4), Next: next})
+		}
+	}
+	address := func(side, p int) string { return fmt.Sprintf("/pair%d?p=%d", sid, 100*side+p) }
+	for side := 0; side < 2; side++ {
+		for p := range layouts[side] {
+			obj := verifPageObject(rng, layouts[side], p+1, true, func(q int) any { return h.URL(address(side, q)) }, nil)
+			/* items carry their side so that a page handed to the wrong reader shows */
+			if items, ok := obj["orderedItems"].([]any); ok {
+				for i := range items {
+					items[i] = fmt.Sprintf("p%di%d", 100*side+p+1, i+1)
+				}
+			} else if item, ok := obj["orderedItems"].(string); ok && item != "" {
+				obj["orderedItems"] = fmt.Sprintf("p%di1", 100*side+p+1)
+			}
+			obj["id"] = h.URL(address(side, p+1))
+			w := &verifsim.World{Sim: sim}
+			raw := w.Render("p1"+address(side, p+1), verifsim.Resp{Status: 200, Ct: []string{"activity"}, Body: "obj", JSON: obj}, rng)
+			h.Set(address(side, p+1), &verifsim.Route{Raw: raw, Delay: time.Duration(1+rng.Intn(3)) * time.Millisecond})
+		}
+	}
+	type result struct {
+		calls []verifkit.M
+		pan   bool
+		what  string
+	}
+	results := [2]result{}
+	done := make(chan int, 2)
+	for side := 0; side < 2; side++ {
+		side := side
+		go func() {
+			defer func() { done <- side }()
+			results[side].pan, results[side].what = verifkit.Try(func() {
+				root, err := NewCollection(h.URL(address(side, 1)), nil, verifConstructTag)
+				if err != nil {
+					panic(err)
+				}
+				var cont Container = root
+				start := uint(0)
+				for cont != nil && len(results[side].calls) < 12 {
+					n := uint(1 + rng.Intn(3))
+					items, next, nextStart := cont.Harvest(n, start)
+					tags := [][]int{}
+					failed := false
+					for _, it := range items {
+						if x, ok := it.(verifTag); ok && !failed {
+							/* back to the numbering of the layout: page = tag page - 100*side */
+							tags = append(tags, []int{x.tag[0] - 100*side, x.tag[1]})
+						} else {
+							failed = true
+						}
+					}
+					results[side].calls = append(results[side].calls, verifkit.M{"n": n, "items": tags, "err": failed, "done": next == nil, "tail": 0, "visits": 0})
+					cont, start = next, nextStart
+				}
+			})
+		}()
+	}
+	watchdog := time.After(10 * time.Second)
+	for finished := 0; finished < 2; finished++ {
+		select {
+		case <-done:
+		case <-watchdog:
+			out.Emit(verifkit.M{"ev": "hang", "sid": sid})
+			os.Exit(3)
+		}
+	}
+	for side := 0; side < 2; side++ {
+		pagesOut := make([]verifkit.M, len(layouts[side]))
+		for i, pg := range layouts[side] {
+			pagesOut[i] = verifkit.M{"n": pg.N, "next": pg.Next}
+		}
+		ev := verifkit.M{"ev": "paging", "sid": sid*10 + side, "pages": pagesOut, "embedded": false, "ordered": true, "panic": results[side].pan, "calls": results[side].calls, "pair": true}
+		if results[side].pan {
+			ev["what"] = results[side].what
+		}
+		out.Emit(ev)
+	}
+}
+
 func verifRandomLayout(rng *rand.Rand) verifPagingIn {
 	k := 1 + rng.Intn(9)
 	pages := make([]verifPage, k)
@@ -304,5 +402,10 @@ func TestVerifPaging(t *testing.T) {
 	for i := 0; i < in.Random; i++ {
 		sid++
 		verifRunPaging(out, rng, sim, sid, verifRandomLayout(rng), rng.Intn(3))
+	}
+	for i := 0; i < in.Random/3; i++ {
+		sid++
+		out.Emit(verifkit.M{"ev": "begin", "sid": sid, "pages": []verifkit.M{}, "sizes": []uint{}, "embedded": false})
+		verifRunPagingPair(out, rng, sim, 100000+sid)
 	}
 }
